@@ -306,6 +306,49 @@ func genC02(e *emitter, tier string, seed uint64) map[string]interface{} {
 			}
 		}
 	}
+	// the decoder direction on ONE streaming context after a frame that was consumed whole and REJECTED (flagged gzip, body not a gzip
+	// stream): the spec frames that follow are decoded to the layout's values — the rejected frame leaves nothing behind in the context
+	// (an application that survives a bad frame keeps its connection context; the bundled client closes the connection, others need not)
+	for _, version := range []int{1, 2} {
+		for round := 0; round < 4; round++ {
+			ctx := protocol.NewContext(context.Background(), protocol.ClientSide)
+			ctx.Handshake(&protocol.Handshake{Version: uint8(version), Codec: protocol.CodecProtobuf, Platform: protocol.PlatformOpenapi})
+			pr, _ := protocol.GetProtocol(uint8(version))
+			bad := specEncode(version, specFrame{typ: 1 + round%3, cmd: 9, rid: uint32(round + 7), to: 3, st: 4, gzip: 1, body: append([]byte{0x1f, 0x8b, 8, 0, 0, 0, 0, 0, 0, 0xff}, bytes.Repeat([]byte("not deflate"), 1+round*9)...)})
+			follow := []specFrame{{typ: 3, cmd: 50, body: []byte("after")}, {typ: 2, cmd: 51, rid: 0xa1b2c3d4, st: 200, body: bytes.Repeat([]byte{7}, 70)}, {typ: 1, cmd: 52, rid: 1, to: 0xfffe, body: nil}}
+			res := guard(func() string {
+				rb := ringbuffer.New(8)
+				_, _ = rb.Write(bad)
+				if round%2 == 1 { // in two pieces: the header is parked in between
+					rb = ringbuffer.New(8)
+					_, _ = rb.Write(bad[:3])
+					_, _, _ = pr.Unpack(ctx, rb)
+					_, _ = rb.Write(bad[3:])
+				}
+				if _, done, err := pr.Unpack(ctx, rb); err == nil {
+					return fmt.Sprintf("the frame flagged gzip with a body that is no gzip stream was accepted (done=%v)", done)
+				}
+				for i, f := range follow {
+					frame := specEncode(version, f)
+					rb2 := ringbuffer.New(8)
+					_, _ = rb2.Write(frame)
+					pk, done, err := pr.Unpack(ctx, rb2)
+					if err != nil || !done || pk == nil {
+						return fmt.Sprintf("spec frame %d after the rejected one: done=%v err=%v (the layout assigns type=%d cmd=%d, %d body bytes)", i, done, err, f.typ, f.cmd, len(f.body))
+					}
+					if int(pk.Metadata.CmdCode) != f.cmd || !(bytes.Equal(pk.Body, f.body) || len(pk.Body)+len(f.body) == 0) || rb2.Length() != 0 ||
+						(f.typ != 3 && pk.Metadata.RequestId != f.rid) || (f.typ == 2 && pk.Metadata.StatusCode != f.st) || (f.typ == 1 && pk.Metadata.Timeout != f.to) {
+						return fmt.Sprintf("spec frame %d after the rejected one decodes to %s, left=%d (the layout assigns type=%d cmd=%d rid=%d, %d body bytes)", i, showPacket(pk), rb2.Length(), f.typ, f.cmd, f.rid, len(f.body))
+					}
+				}
+				return "ok"
+			})
+			idx := e.op(fmt.Sprintf("gz.note after-rejected v=%d round=%d", version, round), "ok", "decoder/after-rejected", true)
+			if res != "ok" {
+				e.fail(idx, fmt.Sprintf("decode_accepts_stream:v%d", version), res)
+			}
+		}
+	}
 	// gzip-flagged spec frames whose CONTENT is as large as a body can be, and larger (the layout limits the body SECTION — the compressed
 	// bytes — to 2^24-1; what they inflate to is not limited by it): the decoders must hand out the whole content. Evaluated on the code
 	// only (the byte-list model is not asked for 16 MiB contents); both decoders, both versions
